@@ -174,9 +174,11 @@ PQuiet(B) ==
     /\ UNCHANGED <<kind, fnst, fnval, cst, cinfo, canc, errRet>>
 
 \* The controller saw this actor pass SpinK critical sections in a row while nothing else moved.
+\* (A caller whose context is cancelled must come out with context.Canceled; one that keeps taking
+\* critical sections instead is as stuck as one found blocked at a quiet point.)
 PSpin(actor) ==
-    LET S == {i \in Pending : cinfo[i].actor = actor /\ i \notin canc} IN
-    /\ bad' = bad \cup (IF S = {} THEN {"Harness"} ELSE {"Spin"})
+    LET S == {i \in Pending : cinfo[i].actor = actor} IN
+    /\ bad' = bad \cup (IF S = {} THEN {"Harness"} ELSE IF S \subseteq canc THEN {"CancelStuck"} ELSE {"Spin"})
     /\ UNCHANGED <<kind, fnst, fnval, cst, cinfo, canc, errRet>>
 
 -----------------------------------------------------------------------------
